@@ -194,8 +194,8 @@ Section Inv.
     end.
   Proof. unfold run_task. destruct times; simpl; destruct (f s); reflexivity. Qed.
 
-  Lemma recv_consumes_head s it rest : q_r s = it :: rest -> q_r (fst (recv_update s)) = rest /\ snd (recv_update s) = true.
-  Proof. intro H. unfold recv_update. rewrite H. destruct it; simpl; auto. Qed.
+  Lemma recv_consumes_head s it rest : q_r s = it :: rest -> q_r (fst (recv_update s)) = rest.
+  Proof. intro H. unfold recv_update. rewrite H. destruct it; reflexivity. Qed.
 
   Lemma dec_consumes_head s e rest : q_d s = e :: rest -> q_d (fst (dec_update cfg s)) = rest.
   Proof. intro H. unfold dec_update. rewrite H. destruct (local_step cfg (dec s) e) as [[d' n]|k]; reflexivity. Qed.
